@@ -599,21 +599,40 @@ def completion_event_hooks(prog: Program) -> dict:
     def key(sv):
         return sv.key() if not isinstance(sv, Obj) else (sv.label or f"CompletionEvent#{sv.oid}")
 
+    def seen_set(it, ev):
+        return any(e.kind == "EV_ISSET" and e.data["ev"] == ev and e.data["result"] for e in it.events)
+
     def h_is_set(it, fn, sv, a, k, n):
-        r = it.decide_bool(f"is_set({key(sv)})")
-        it.emit("EV_ISSET", n, ev=key(sv), result=r, oid=getattr(sv, "oid", None))
+        # an event is only ever set by another thread, never cleared under the reader: once seen set it stays set, but a read that
+        # saw it clear says nothing about the next read (each later read is a fresh decision)
+        ev = key(sv)
+        prior = sum(1 for e in it.events if e.kind == "EV_ISSET" and e.data["ev"] == ev)
+        if seen_set(it, ev):
+            r = True
+        else:
+            r = it.decide_bool(f"is_set({ev})" if prior == 0 else f"is_set({ev})@{prior + 1}")
+        it.emit("EV_ISSET", n, ev=ev, result=r, oid=getattr(sv, "oid", None))
         return Const(r)
 
     def h_wait(it, fn, sv, a, k, n):
         bounded = bool(a) or "timeout" in k
-        it.emit("EV_WAIT", n, ev=key(sv), bounded=bounded, oid=getattr(sv, "oid", None))
-        if it.memo.get(f"is_set({key(sv)})") == 0:
-            # an event that was seen set carries the stored error (the flag is only ever set with one)
-            raise _Raise(it.make_exc(BTE_FQ, f"wait({key(sv)})"), it.site(n))
-        c = it.decide(f"wait({key(sv)}) outcome", 2, ["released", "BackgroundThreadError"])
-        if c:
-            raise _Raise(it.make_exc(BTE_FQ, f"wait({key(sv)})"), it.site(n))
-        return Const(True)
+        ev = key(sv)
+        e_ = it.emit("EV_WAIT", n, ev=ev, bounded=bounded, oid=getattr(sv, "oid", None))
+        # an event created by this call (its own completion event) vs. a shared flag held by the state object
+        own = isinstance(sv, Obj) and not (sv.label or "").startswith("state.")
+        if seen_set(it, ev) and not own:
+            # a shared flag that was seen set carries the stored error (the flag is only ever set with one)
+            e_.data["outcome"] = "BackgroundThreadError"
+            raise _Raise(it.make_exc(BTE_FQ, f"wait({ev})"), it.site(n))
+        opts = ["released", "BackgroundThreadError"]
+        if bounded and not seen_set(it, ev):
+            opts.append("timeout")
+        prior = sum(1 for x in it.events if x.kind == "EV_WAIT" and x.data["ev"] == ev) - 1
+        c = it.decide(f"wait({ev}) outcome" if prior == 0 else f"wait({ev}) outcome@{prior + 1}", len(opts), opts)
+        e_.data["outcome"] = opts[c]
+        if c == 1:
+            raise _Raise(it.make_exc(BTE_FQ, f"wait({ev})"), it.site(n))
+        return Const(c == 0)
 
     def h_set(it, fn, sv, a, k, n):
         arg = a[0] if a else k.get("error", NONE)
